@@ -214,7 +214,7 @@ var subStructured = vk.Register(&vk.Sub[Case]{Name: "structured", Gen: genStruct
 func genStructured(t *rapid.T) Case {
 	maxLen := vk.Pick(200000, 1000000)
 	// the last three hold bytes >= 0x80 only: valid multi-byte UTF-8 (e with acute, u with diaeresis), stray continuation and lead bytes
-	alphas := []string{"AC", "ACGT", "ACGTRYSWKMBDHVN", "\x00\xff", "ab\x00\xffz", "\xc3\xa9\xc3\xbc", "\x80\xbf\xc2\xff", "\xc3\xa9"}
+	alphas := []string{"AC", "ACGT", "ACGTRYSWKMBDHVN", "aA", "ACGTacgt", "ACGTNacgtn*-", "\x00\xff", "ab\x00\xffz", "\xc3\xa9\xc3\xbc", "\x80\xbf\xc2\xff", "\xc3\xa9"}
 	alpha := rapid.SampledFrom(alphas).Draw(t, "alpha")
 	letter := func(name string) byte { return alpha[rapid.IntRange(0, len(alpha)-1).Draw(t, name)] }
 	unit := func(name string, lo, hi int) []byte {
@@ -370,6 +370,8 @@ func TestSub_enum(t *testing.T) {
 		{[]byte("AC"), vk.Pick(16, 20)},
 		{[]byte("ACG"), vk.Pick(10, 13)},
 		{[]byte("ACGT"), vk.Pick(8, 11)},
+		{[]byte("aA"), vk.Pick(10, 13)}, // letters that differ in case only (soft-masked sequence): byte order, not folded order
+		{[]byte("AaCc"), vk.Pick(6, 8)},
 		{[]byte{0x00, 0xff}, vk.Pick(10, 14)},
 		{[]byte{0x00, 'A', 0xff}, vk.Pick(7, 9)},
 		{[]byte{0xc3, 0xa9, 0xbc}, vk.Pick(7, 9)}, // bytes >= 0x80 only: strings that are partly valid multi-byte UTF-8
